@@ -71,6 +71,44 @@ def key_of(el, pos):
     return (int(el), tuple(np.round(np.asarray(pos, dtype=float), 5) + 0.0))
 
 
+def compare_atoms(got_el, got_pos, exp_el, exp_pos, tol=1e-6):
+    """One-to-one matching of returned and expected atoms (same element, positions within tol); None when they agree."""
+    from scipy.spatial import cKDTree
+    got_pos, exp_pos = np.asarray(got_pos, dtype=float).reshape(-1, 3), np.asarray(exp_pos, dtype=float).reshape(-1, 3)
+    got_el, exp_el = np.asarray(got_el).astype(int), np.asarray(exp_el).astype(int)
+    if len(got_pos) == 0 and len(exp_pos) == 0:
+        return None
+    used = np.zeros(len(got_pos), dtype=bool)
+    missing = []
+    if len(got_pos):
+        tree = cKDTree(got_pos)
+        for e, p_ in zip(exp_el, exp_pos):
+            cands = [j for j in tree.query_ball_point(p_, tol) if not used[j] and got_el[j] == e]
+            if cands:
+                used[cands[0]] = True
+            else:
+                missing.append(p_.tolist())
+    else:
+        missing = exp_pos.tolist()
+    extra = got_pos[~used].tolist() if len(got_pos) else []
+    if not missing and not extra:
+        return None
+    return {"returned": int(len(got_pos)), "expected": int(len(exp_pos)), "missing": len(missing), "extra_or_duplicate": len(extra),
+            "first_missing": missing[:2], "first_extra": extra[:2]}
+
+
+def not_own(exp, uc, own_positions, tol=1e-3):
+    """Expected neighbours: brute-force hits that are not (within tol of) one of the centre's own atoms."""
+    own = np.asarray(own_positions, dtype=float).reshape(-1, 3)
+    els, pos = [], []
+    for p_, cell, d, q in exp:
+        if np.linalg.norm(own - q, axis=1).min() < tol:
+            continue
+        els.append(uc["element"][p_])
+        pos.append(q)
+    return els, pos
+
+
 def compare_sets(got, exp):
     g, e = sorted(got), sorted(exp)
     if g == e:
@@ -112,17 +150,17 @@ def native_queries(crystal, radius, rng, label):
     n_evals += 1
     for i, s in enumerate(sur):
         exp, _ = brute_force(crystal, [cart_asym[i]], radius)
-        expk = [key_of(uc["element"][p], pos) for p, c, d, pos in exp if d > 1e-3]
-        gotk = [key_of(e, p) for e, p in zip(s["neighbours"]["element"], s["neighbours"]["cart_pos"])]
-        diff = compare_sets(gotk, expk)
+        e_el, e_pos = not_own(exp, uc, [cart_asym[i]])
+        diff = compare_atoms(s["neighbours"]["element"], s["neighbours"]["cart_pos"], e_el, e_pos)
         if diff is None:
             dd = np.linalg.norm(s["neighbours"]["cart_pos"] - cart_asym[i], axis=1)
             if not np.allclose(dd, s["neighbours"]["distance"], atol=1e-9) or s["centre"]["asym_atom"] != i:
                 diff = {"distances_or_centre_inconsistent": True}
             else:
-                expa = sorted((key_of(uc["element"][p], pos), int(uc["asym_atom"][p])) for p, c, d, pos in exp if d > 1e-3)
-                gota = sorted((key_of(e, p), int(a)) for e, p, a in zip(s["neighbours"]["element"], s["neighbours"]["cart_pos"], s["neighbours"]["asym_atom"]))
-                if expa != gota:
+                # parent-site indices: match on (asym index encoded as element) as well
+                ea = [int(uc["asym_atom"][p]) for p, c, d, pos in exp if d > 1e-3]
+                ep = [pos for p, c, d, pos in exp if d > 1e-3]
+                if compare_atoms(s["neighbours"]["asym_atom"], s["neighbours"]["cart_pos"], ea, ep) is not None:
                     diff = {"parent_site_indices_wrong": True}
         if diff:
             fails.append({"input": {"crystal": label, "query": "atomic_surroundings", "radius": radius, "asym_atom": i}, "observed": diff,
@@ -448,9 +486,8 @@ def bounded(ctx):
         for mol, els, pos in c.molecule_environments(radius=radius):
             evals += 1
             exp, _ = brute_force(c, mol.positions, radius)
-            own = {key_of(e, p) for e, p in zip(mol.atomic_numbers, mol.positions)}
-            expk = [key_of(uc["element"][p], q) for p, cell, d, q in exp if key_of(uc["element"][p], q) not in own]
-            diff = compare_sets([key_of(e, p) for e, p in zip(els, pos)], expk)
+            e_el, e_pos = not_own(exp, uc, mol.positions)
+            diff = compare_atoms(els, pos, e_el, e_pos)
             if diff and len(fails) < 3:
                 fails.append({"input": {"crystal": "acetic_acid.cif", "query": "molecule_environments", "radius": radius}, "observed": diff,
                               "clause": "molecule environment: exactly the images within the radius of the nearest atom of the molecule, the molecule's own atoms excluded",
@@ -458,9 +495,8 @@ def bounded(ctx):
         (cel, cpos), (nel, npos) = c.atom_group_surroundings([0, 1, 2], radius=radius)
         evals += 1
         exp, _ = brute_force(c, cpos, radius)
-        own = {key_of(e, p) for e, p in zip(cel, cpos)}
-        expk = [key_of(uc["element"][p], q) for p, cell, d, q in exp if key_of(uc["element"][p], q) not in own]
-        diff = compare_sets([key_of(e, p) for e, p in zip(nel, npos)], expk)
+        e_el, e_pos = not_own(exp, uc, cpos)
+        diff = compare_atoms(nel, npos, e_el, e_pos)
         if diff and len(fails) < 3:
             fails.append({"input": {"crystal": "acetic_acid.cif", "query": "atom_group_surroundings", "atoms": [0, 1, 2], "radius": radius}, "observed": diff,
                           "clause": "atom-group surroundings: images within the radius of the group, the group's own atoms excluded", "key": "atom_group_surroundings"})
